@@ -422,7 +422,7 @@ func c20ChildEnv() []string {
 }
 
 func c20New(q c20Query) *c20Inst {
-	opts := []streamsql.Option{streamsql.WithDiscardLog()}
+	opts := []streamsql.Option{presetOpt(), streamsql.WithDiscardLog()}
 	if c20Schema || os.Getenv("C20_SCHEMA") == "1" {
 		opts = append(opts, streamsql.WithSchema(schema.Schema{Name: "c20", Fields: []schema.FieldDef{{Name: "zdef", Type: schema.TypeFloat, Default: float64(7)}}}))
 	}
